@@ -235,6 +235,19 @@ impl Unifiable {
                     }
                 }
 
+                // If the other term is a variable whose chain of bindings ends at
+                // this (unbound) variable, the two are already aliased. Binding
+                // this variable to it would create a cycle.
+                let mut o = other;
+                while let Unifiable::LogicVar{id: other_id, name: _} = o {
+                    if *other_id == id { return Some(Rc::clone(ss)); }
+                    if *other_id >= length_src { break; }
+                    match &ss[*other_id] {
+                        Some(term) => { o = &*term; },
+                        None => { break; },
+                    }
+                }
+
                 let mut length_dst = length_src;
                 if id >= length_dst { length_dst = id + 1; }
 
